@@ -457,18 +457,29 @@ def seq_apply(op, kind, L, target, sources, carried_ids, level):
 def converted_story_canon(ss_el):
     """Canon of the <story> a roStorySend must arrive as: the roStorySend
     element retagged story, children of storyBody spliced at storyBody's
-    position in order, direct storyItem children of the body retagged item."""
-    tag, attrib, text, kids, tail = canon(ss_el)
+    position in order, direct storyItem children of the body retagged item.
+    Built as a real element (independently of the library) so that the
+    canonical form sees the same mixed / element-only context as the result."""
+    import copy
+    e = copy.deepcopy(ss_el)
+    e.tag = 'story'
     out = []
     done = False
-    for k in kids:
-        if k[0] == 'storyBody' and not done:
+    for k in list(e):
+        if k.tag == 'storyBody' and not done:
             done = True
-            for b in k[3]:
-                out.append(retag(b, 'item') if b[0] == 'storyItem' else b)
+            for b in list(k):
+                if b.tag == 'storyItem':
+                    b.tag = 'item'
+                out.append(b)
         else:
             out.append(k)
-    return ('story', attrib, text, tuple(out), '')
+    for k in list(e):
+        e.remove(k)
+    for k in out:
+        e.append(k)
+    e.tail = None
+    return canon(e)
 
 
 # --------------------------------------------------------------------------
